@@ -34,6 +34,7 @@ for u in mod.UNITS:
         a=agg.setdefault(o.name,[0,0,0]); a[{'PROVED':0,'REFUTED':1,'UNDECIDED':2}[o.verdict]]+=1
     print(u.name, 'paths', r.paths, r.outcomes, 'err', r.error, 'canary', r.canary, round(r.wall,2), 'obls', len(r.obls))
     if r.crash: print(r.crash[-1500:])
+    if r.never_evaluated and not r.error: print('    NEVER-EVALUATED clauses:', sorted(r.never_evaluated))
     shown=set()
     for n,a in agg.items():
         if a[1] or a[2]: print('    BAD', n, a)
